@@ -286,7 +286,16 @@ func init() {
 		}
 
 		// run the history on the real library
+		// (one more deviation: built through the API, the option's group added only after a first parse on the parser)
+		lateGroup := nest >= 1 && nest <= 4 && c.Deviate(2) == 1
 		b := cd.d.BuildTags()
+		if lateGroup {
+			b = cd.d.BuildAPIWith(func(hb *decl.Built) {
+				hb.Parser.ParseArgs(nil)
+				rezero(hb)
+			})
+			c.Hit("group-added-after-a-first-parse")
+		}
 		if b.Err != nil {
 			c.Fail("setup-error", b.Err.Error())
 			return
@@ -401,10 +410,10 @@ func init() {
 		DevBound:   func(bool) int { return 2 },
 		Rule: "10 option types (string, int, bool, *int, []string, []int, map[string]int, Unmarshaler, map[string]string with one key in every source, a slice-kinded Unmarshaler that appends) x initial value present/absent x 0..2 default tags x environment {unset, one value, two values with env-delim, set-but-empty} " +
 			"x 0..2 INI entries x 0..2 command-line occurrences x 10 histories (CLI only; INI then CLI; as-defaults INI then CLI; CLI then as-defaults INI; as-defaults, CLI, as-defaults; as-defaults read from a callback option given before / after the occurrences; " +
-			"from a callback option's default declared first / last; two as-defaults reads then CLI) x env-namespace nesting {none, outer, outer+inner, outer only around a plain inner group, inner only inside a plain outer group, option declared on a subcommand that the command line selects only when the option occurs} x EnvNamespaceDelimiter {_, empty, __} (nesting/delimiter deviation-bounded); one more deviation uses a single IniParser object for all reads of a history; a second []string option initialised from the same backing array must keep its value; " +
+			"from a callback option's default declared first / last; two as-defaults reads then CLI) x env-namespace nesting {none, outer, outer+inner, outer only around a plain inner group, inner only inside a plain outer group, option declared on a subcommand that the command line selects only when the option occurs} x EnvNamespaceDelimiter {_, empty, __} (nesting/delimiter deviation-bounded); one more deviation uses a single IniParser object for all reads of a history; another builds the parser through the API and adds the option's group only after a first ParseArgs; a second []string option initialised from the same backing array must keep its value; " +
 			"the history machine per option is {untouched, defaulted, ini, explicit}; oracle = precedence function CLI > INI > env > default tags > initial, multi-valued options holding exactly the winner's values",
 		Assumptions:  []string{"plain-mode INI read after a command-line parse is not ranked by the statement and is not exercised", "an empty environment value for a non-string option is skipped"},
-		RequiredHits: []string{"winner:cli", "winner:ini", "winner:env", "winner:default", "winner:initial", "history:CD", "history:DCD", "history:config-flag-after", "history:config-default-last", "option-of-a-command"},
+		RequiredHits: []string{"winner:cli", "winner:ini", "winner:env", "winner:default", "winner:initial", "history:CD", "history:DCD", "history:config-flag-after", "history:config-default-last", "option-of-a-command", "group-added-after-a-first-parse"},
 		Bound:        [2]string{"complete product, <= 2 namespace deviations", "complete product, <= 2 namespace deviations"},
 		BudgetS:      [2]int{170, 600},
 	})
